@@ -8,6 +8,7 @@ import (
 	"sort"
 	"strings"
 
+	"cosmossdk.io/x/feegrant"
 	sdk "github.com/cosmos/cosmos-sdk/types"
 	banktypes "github.com/cosmos/cosmos-sdk/x/bank/types"
 	"github.com/cosmos/gogoproto/proto"
@@ -21,7 +22,7 @@ import (
 // operations (JSON-serialisable: they go to the op log and into witnesses)
 
 type msgSpec struct {
-	K        string              `json:"k"` // create | mint | burn | chadmin | setmeta | send
+	K        string              `json:"k"` // create | mint | burn | chadmin | setmeta | send | grant | revoke
 	Creator  string              `json:"creator"`
 	Signers  []string            `json:"signers"`
 	Sub      string              `json:"sub,omitempty"`
@@ -29,7 +30,8 @@ type msgSpec struct {
 	Amt      string              `json:"amt,omitempty"` // decimal big integer, may be negative
 	NewAdmin string              `json:"new_admin,omitempty"`
 	Meta     *banktypes.Metadata `json:"meta,omitempty"`
-	To       string              `json:"to,omitempty"`
+	To       string              `json:"to,omitempty"`     // send: recipient; grant / revoke: grantee (Creator = granter)
+	ExpIn    int                 `json:"exp_in,omitempty"` // grant: allowance expires this many seconds after the current block time (0 = never)
 	// generator intent labels (never read by the oracle; they only feed the coverage key)
 	DenomClass   string `json:"dc,omitempty"`
 	CreatorClass string `json:"cc,omitempty"`
@@ -38,7 +40,7 @@ type msgSpec struct {
 }
 
 type txSpec struct {
-	Signer int       `json:"signer"` // index into the user list: the account whose key signs
+	Signer int       `json:"signer"` // index into the user list: the account whose key signs (for a delegated message: the grantee)
 	Msgs   []msgSpec `json:"msgs"`
 	Note   string    `json:"note,omitempty"`
 }
@@ -67,12 +69,20 @@ type observed struct {
 	admin    map[string]string              // denom -> admin string, from "denoms|<denom>|authoritymetadata"
 	creators map[string]string              // denom -> creator string, from "creator|<creator>|<denom>"
 	unknown  []string                       // tokenfactory store keys of unknown shape
+	grants   map[string]map[string]bool     // fee allowances (environment): granter bech32 -> grantee bech32
 }
 
 func observe(c *chain.Chain) *observed {
 	ctx := c.Ctx()
 	o := &observed{bal: map[string]map[string]*big.Int{}, supply: map[string]*big.Int{}, meta: map[string]string{},
-		admin: map[string]string{}, creators: map[string]string{}}
+		admin: map[string]string{}, creators: map[string]string{}, grants: map[string]map[string]bool{}}
+	_ = c.App.FeeGrantKeeper.IterateAllFeeAllowances(ctx, func(gr feegrant.Grant) bool {
+		if o.grants[gr.Granter] == nil {
+			o.grants[gr.Granter] = map[string]bool{}
+		}
+		o.grants[gr.Granter][gr.Grantee] = true
+		return false
+	})
 	c.App.BankKeeper.IterateAllBalances(ctx, func(addr sdk.AccAddress, coin sdk.Coin) bool {
 		if coin.Amount.IsNil() || coin.Amount.IsZero() {
 			return false
@@ -147,10 +157,14 @@ type model struct {
 	bal    map[string]map[string]*big.Int // ALL denoms: denom -> address -> amount
 	supply map[string]*big.Int            // ALL denoms
 	meta   map[string]string              // ALL bank metadata entries
+	// environment: fee allowances between accounts (granter -> grantee). Paloma's ante decorator
+	// lets the grantee sign messages whose Metadata.Creator is the granter (delegated signing).
+	grants map[string]map[string]bool
 }
 
 func newModel(o *observed) *model {
-	m := &model{tokens: map[string]*token{}, bal: map[string]map[string]*big.Int{}, supply: map[string]*big.Int{}, meta: map[string]string{}}
+	m := &model{tokens: map[string]*token{}, bal: map[string]map[string]*big.Int{}, supply: map[string]*big.Int{}, meta: map[string]string{}, grants: map[string]map[string]bool{}}
+	m.adoptGrants(o)
 	for d, mm := range o.bal {
 		m.bal[d] = map[string]*big.Int{}
 		for a, v := range mm {
@@ -167,7 +181,13 @@ func newModel(o *observed) *model {
 }
 
 func (m *model) clone() *model {
-	n := &model{tokens: map[string]*token{}, bal: map[string]map[string]*big.Int{}, supply: map[string]*big.Int{}, meta: map[string]string{}}
+	n := &model{tokens: map[string]*token{}, bal: map[string]map[string]*big.Int{}, supply: map[string]*big.Int{}, meta: map[string]string{}, grants: map[string]map[string]bool{}}
+	for a, mm := range m.grants {
+		n.grants[a] = map[string]bool{}
+		for b := range mm {
+			n.grants[a][b] = true
+		}
+	}
 	for d, t := range m.tokens {
 		tt := *t
 		tt.Minted = new(big.Int).Set(t.Minted)
@@ -254,14 +274,107 @@ type finding struct {
 	sig, msg string
 }
 
-// applyTx applies a SUCCESSFUL transaction signed by `signer` to the model, message by message,
-// and returns the authorisation findings (a privileged action that succeeded although the model
-// says the signer is not entitled / the denom is not a factory token). newDenoms are the
-// denominations the transaction's MsgCreateDenomResponse reported, in message order.
-func (m *model) applyTx(signer *chain.Account, signerIdx int, tx txSpec, newDenoms []string) (fs []finding, created []string) {
+// ---------------------------------------------------------------------------------------------
+// fee allowances (environment) and the acting party of a message
+
+func (m *model) hasGrant(granter, grantee string) bool { return m.grants[granter][grantee] }
+
+func (m *model) setGrant(granter, grantee string, on bool) {
+	if on {
+		if m.grants[granter] == nil {
+			m.grants[granter] = map[string]bool{}
+		}
+		m.grants[granter][grantee] = true
+		return
+	}
+	delete(m.grants[granter], grantee)
+	if len(m.grants[granter]) == 0 {
+		delete(m.grants, granter)
+	}
+}
+
+func (m *model) grantCount() int {
+	n := 0
+	for _, mm := range m.grants {
+		n += len(mm)
+	}
+	return n
+}
+
+// adoptGrants makes the model's allowance set equal to the observed one and reports how many
+// entries differed. Allowances are environment, not part of the property: successful grant /
+// revoke messages are applied by applyTx, an expired allowance disappears in the fee-grant
+// end-blocker - that is the only difference expected here.
+func (m *model) adoptGrants(o *observed) (diff int) {
+	for a, mm := range m.grants {
+		for b := range mm {
+			if !o.grants[a][b] {
+				diff++
+			}
+		}
+	}
+	for a, mm := range o.grants {
+		for b := range mm {
+			if !m.grants[a][b] {
+				diff++
+			}
+		}
+	}
+	m.grants = map[string]map[string]bool{}
+	for a, mm := range o.grants {
+		m.grants[a] = map[string]bool{}
+		for b := range mm {
+			m.grants[a][b] = true
+		}
+	}
+	return diff
+}
+
+// acting decides which account a message of a transaction signed with the key of users[signerIdx]
+// acts for. It is the signer, unless Metadata.Creator designates ANOTHER user that has granted the
+// signer a fee allowance: then (Paloma's delegated signing, admitted by
+// VerifyAuthorisedSignatureDecorator) the message acts for that creator, and everything the
+// property says about "the admin" is said about the creator: it must be the current admin, the
+// balance that moves must be the creator's own, a new denom lies in the creator's namespace.
+// Without an allowance a foreign creator field gives the signer no rights whatsoever.
+func (m *model) acting(users []*chain.Account, signerIdx int, ms msgSpec) (idx int, delegated bool) {
+	switch ms.K {
+	case "send", "grant", "revoke":
+		return signerIdx, false
+	}
+	signer := users[signerIdx]
+	if ms.Creator == "" || sameAccount(ms.Creator, signer.Addr) {
+		return signerIdx, false
+	}
+	for i, u := range users {
+		if i != signerIdx && sameAccount(ms.Creator, u.Addr) && m.hasGrant(u.Bech, signer.Bech) {
+			return i, true
+		}
+	}
+	return signerIdx, false
+}
+
+// inNamespaceOf: denom = factory/<c>/<sub...> where <c> designates account a
+func inNamespaceOf(denom string, a sdk.AccAddress) bool {
+	p := strings.SplitN(denom, "/", 3)
+	return len(p) == 3 && p[0] == "factory" && sameAccount(p[1], a)
+}
+
+// applyTx applies a SUCCESSFUL transaction signed with the key of users[signerIdx] to the model,
+// message by message, and returns the authorisation findings (a privileged action that succeeded
+// although the model says the acting party is not entitled / the denom is not a factory token).
+// newDenoms are the denominations the transaction's MsgCreateDenomResponse reported, in message
+// order. delegatedKinds lists the kinds of the messages that acted for a granter (evidence only).
+func (m *model) applyTx(users []*chain.Account, signerIdx int, tx txSpec, newDenoms []string) (fs []finding, created []string, delegatedKinds []string) {
 	ci := 0
 	for i, ms := range tx.Msgs {
-		who := fmt.Sprintf("msg %d (%s) signed by %s", i, ms.K, signer.Bech)
+		actIdx, delegated := m.acting(users, signerIdx, ms)
+		act := users[actIdx]
+		who := fmt.Sprintf("msg %d (%s) signed by %s", i, ms.K, users[signerIdx].Bech)
+		if delegated {
+			who += fmt.Sprintf(" for creator %s under a fee allowance", act.Bech)
+			delegatedKinds = append(delegatedKinds, ms.K)
+		}
 		switch ms.K {
 		case "create":
 			if ci >= len(newDenoms) {
@@ -270,39 +383,39 @@ func (m *model) applyTx(signer *chain.Account, signerIdx int, tx txSpec, newDeno
 			}
 			d := newDenoms[ci]
 			ci++
-			if !strings.HasPrefix(d, "factory/"+signer.Bech+"/") {
-				fs = append(fs, finding{"create:outside-own-namespace", fmt.Sprintf("%s: created %q which is not inside factory/%s/", who, d, signer.Bech)})
+			if !inNamespaceOf(d, act.Addr) {
+				fs = append(fs, finding{"create:outside-own-namespace", fmt.Sprintf("%s: created %q which is not inside factory/%s/", who, d, act.Bech)})
 			}
 			if _, ok := m.tokens[d]; ok {
 				fs = append(fs, finding{"create:existing-denom-recreated", fmt.Sprintf("%s: created %q again (factory token, current admin %q)", who, d, m.tokens[d].Admin)})
 			} else if m.knownToBank(d) {
 				fs = append(fs, finding{"create:existing-denom-recreated", fmt.Sprintf("%s: created %q although the bank already knows this denom", who, d)})
 			}
-			m.tokens[d] = &token{Admin: signer.Bech, Minted: new(big.Int), Burned: new(big.Int), CreatorIdx: signerIdx, Sub: ms.Sub}
+			m.tokens[d] = &token{Admin: act.Bech, Minted: new(big.Int), Burned: new(big.Int), CreatorIdx: actIdx, Sub: ms.Sub}
 			created = append(created, d)
 		case "mint", "burn":
 			amt := ms.amount()
 			t, ok := m.tokens[ms.Denom]
 			if !ok {
 				fs = append(fs, finding{ms.K + ":non-factory-denom", fmt.Sprintf("%s: %s of %s %q succeeded but that denom was never created through the factory", who, ms.K, amt, ms.Denom)})
-			} else if !sameAccount(t.Admin, signer.Addr) {
+			} else if !sameAccount(t.Admin, act.Addr) {
 				fs = append(fs, finding{ms.K + ":by-non-admin", fmt.Sprintf("%s: %s of %s %q succeeded but the current admin is %q", who, ms.K, amt, ms.Denom, t.Admin)})
 			}
 			if amt.Sign() <= 0 {
 				fs = append(fs, finding{ms.K + ":non-positive-amount", fmt.Sprintf("%s: %s of %s %q succeeded", who, ms.K, amt, ms.Denom)})
 			}
 			if ms.K == "mint" {
-				m.addBal(ms.Denom, signer.Bech, amt)
+				m.addBal(ms.Denom, act.Bech, amt)
 				m.addSupply(ms.Denom, amt)
 				if ok {
 					t.Minted.Add(t.Minted, amt)
 				}
 			} else {
-				if m.balance(ms.Denom, signer.Bech).Cmp(amt) < 0 {
-					fs = append(fs, finding{"burn:exceeds-own-balance", fmt.Sprintf("%s: burn of %s %q succeeded but the signer only holds %s", who, amt, ms.Denom, m.balance(ms.Denom, signer.Bech))})
+				if m.balance(ms.Denom, act.Bech).Cmp(amt) < 0 {
+					fs = append(fs, finding{"burn:exceeds-own-balance", fmt.Sprintf("%s: burn of %s %q succeeded but the acting account only holds %s", who, amt, ms.Denom, m.balance(ms.Denom, act.Bech))})
 				}
 				neg := new(big.Int).Neg(amt)
-				m.addBal(ms.Denom, signer.Bech, neg)
+				m.addBal(ms.Denom, act.Bech, neg)
 				m.addSupply(ms.Denom, neg)
 				if ok {
 					t.Burned.Add(t.Burned, amt)
@@ -314,7 +427,7 @@ func (m *model) applyTx(signer *chain.Account, signerIdx int, tx txSpec, newDeno
 				fs = append(fs, finding{"change-admin:non-factory-denom", fmt.Sprintf("%s: admin of %q set to %q but that denom was never created through the factory", who, ms.Denom, ms.NewAdmin)})
 				continue
 			}
-			if !sameAccount(t.Admin, signer.Addr) {
+			if !sameAccount(t.Admin, act.Addr) {
 				fs = append(fs, finding{"change-admin:by-non-admin", fmt.Sprintf("%s: admin of %q set to %q but the current admin is %q", who, ms.Denom, ms.NewAdmin, t.Admin)})
 			}
 			t.Admin = ms.NewAdmin
@@ -326,7 +439,7 @@ func (m *model) applyTx(signer *chain.Account, signerIdx int, tx txSpec, newDeno
 			t, ok := m.tokens[base]
 			if !ok {
 				fs = append(fs, finding{"set-metadata:non-factory-denom", fmt.Sprintf("%s: metadata of %q set but that denom was never created through the factory", who, base)})
-			} else if !sameAccount(t.Admin, signer.Addr) {
+			} else if !sameAccount(t.Admin, act.Addr) {
 				fs = append(fs, finding{"set-metadata:by-non-admin", fmt.Sprintf("%s: metadata of %q set but the current admin is %q", who, base, t.Admin)})
 			}
 			if ms.Meta != nil {
@@ -335,14 +448,19 @@ func (m *model) applyTx(signer *chain.Account, signerIdx int, tx txSpec, newDeno
 		case "send":
 			// environment operation (plain bank transfer between users), not a factory message
 			amt := ms.amount()
-			m.addBal(ms.Denom, signer.Bech, new(big.Int).Neg(amt))
+			m.addBal(ms.Denom, act.Bech, new(big.Int).Neg(amt))
 			m.addBal(ms.Denom, ms.To, amt)
+		case "grant":
+			// environment operation: fee allowance granter (= signer) -> grantee
+			m.setGrant(ms.Creator, ms.To, true)
+		case "revoke":
+			m.setGrant(ms.Creator, ms.To, false)
 		}
 	}
 	if ci < len(newDenoms) {
-		fs = append(fs, finding{"create:unrequested-denom-reported", fmt.Sprintf("tx signed by %s reported new denoms %v beyond its create messages", signer.Bech, newDenoms[ci:])})
+		fs = append(fs, finding{"create:unrequested-denom-reported", fmt.Sprintf("tx signed by %s reported new denoms %v beyond its create messages", users[signerIdx].Bech, newDenoms[ci:])})
 	}
-	return fs, created
+	return fs, created, delegatedKinds
 }
 
 // compare checks the complete observed state against the model. `kinds` labels the signature
